@@ -1163,6 +1163,9 @@ const S4_EARLY: &[u8] = b"EARLY-request-written-before-the-handshake-completed;"
 const S4_TAIL: &[u8] = b"tail-written-after-the-handshake;";
 const S4_RETRY1: &[u8] = b"RETRY-first-half;";
 const S4_RETRY2: &[u8] = b"retry-second-half.";
+const S4_BI_EARLY: &[u8] = b"EARLY-bidirectional-request;";
+const S4_BI_RETRY: &[u8] = b"RETRY-bidirectional-request.";
+const S4_RESP: &[u8] = b"response-to-the-bidirectional-request: 0123456789abcdefghijklmnopqrstuvwxyz0123456789abcdefghijklmnopqrstuvwxyz";
 
 async fn s4_client(o: Arc<Obs>, ep: Endpoint, cc: ClientConfig, saddr: SocketAddr) {
     let connecting = match ep.connect_with(cc, saddr, "localhost") {
@@ -1181,11 +1184,21 @@ async fn s4_client(o: Arc<Obs>, ep: Endpoint, cc: ClientConfig, saddr: SocketAdd
     if let Err(e) = aw!(o, "cli.write.early", early.write_all(S4_EARLY)) {
         return o.fail("O7:early-write", format!("write on the early stream before the handshake completed: {e:?}"));
     }
+    // a bidirectional early stream as well: both of its handles become stale on rejection
+    let (mut ebs, mut ebr) = match aw!(o, "cli.open_bi.early", conn.open_bi()) {
+        Ok(x) => x,
+        Err(e) => return o.fail("O1:open_bi", format!("early open_bi: {}", cerr(&e))),
+    };
+    let ebid = sid(ebs.id());
+    if let Err(e) = aw!(o, "cli.write.early_bi", ebs.write_all(S4_BI_EARLY)) {
+        return o.fail("O7:early-write", format!("write on the early bidirectional stream: {e:?}"));
+    }
     if let Err(e) = aw!(o, "cli.authenticated", conn.authenticated()) {
         return o.fail("O1:connect", format!("authenticated(): {}", cerr(&e)));
     }
     let ok = o.scen == Scen::S4a;
     if ok {
+
         if let Err(e) = aw!(o, "cli.write.tail", early.write_all(S4_TAIL)) {
             return o.fail("O7:tail-write", format!("write after accepted 0-RTT: {e:?}"));
         }
@@ -1196,11 +1209,27 @@ async fn s4_client(o: Arc<Obs>, ep: Endpoint, cc: ClientConfig, saddr: SocketAdd
             Ok(None) => {}
             r => return o.fail("O1:stopped", format!("stopped() on the finished early stream: {r:?}")),
         }
+        if let Err(e) = ebs.finish() {
+            return o.fail("O2:finish", format!("finish on the early bidirectional stream: {e:?}"));
+        }
+        match aw!(o, "cli.read.early_bi", ebr.read_to_end(4096)) {
+            Ok(d) if d == S4_RESP => {}
+            r => return o.fail("O7:0rtt-response", format!("response on the accepted early bidirectional stream: {:?}", r.map(|d| d.len()))),
+        }
     } else {
         // the stale handle reports the rejection and nothing else
         match aw!(o, "cli.write.stale", early.write(b"x")) {
             Err(quinn::WriteError::ZeroRttRejected) => {}
             r => return o.fail("O7:stale-handle", format!("write on an early stream after rejection returned {r:?}, expected Err(ZeroRttRejected)")),
+        }
+        // ... through every operation, also before any new stream took over its id
+        match aw!(o, "cli.stopped.stale", early.stopped()) {
+            Err(quinn::StoppedError::ZeroRttRejected) => {}
+            r => return o.fail("O7:stale-handle", format!("stopped() on an early stream after rejection returned {r:?}, expected Err(ZeroRttRejected): the data never reached the server")),
+        }
+        match aw!(o, "cli.stopped.stale_bi", ebs.stopped()) {
+            Err(quinn::StoppedError::ZeroRttRejected) => {}
+            r => return o.fail("O7:stale-handle", format!("stopped() on the early bidirectional stream after rejection returned {r:?}, expected Err(ZeroRttRejected)")),
         }
         let mut s2 = match aw!(o, "cli.open_uni.retry", conn.open_uni()) {
             Ok(s) => s,
@@ -1223,6 +1252,28 @@ async fn s4_client(o: Arc<Obs>, ep: Endpoint, cc: ClientConfig, saddr: SocketAdd
         match aw!(o, "cli.stopped", s2.stopped()) {
             Ok(None) => {}
             r => return o.fail("O1:stopped", format!("stopped() on the finished retry stream: {r:?}")),
+        }
+        // the bidirectional request is retried on a fresh stream (which gets the id of the rejected
+        // one); the stale handles go away while its response has not been read yet
+        let (mut rbs, mut rbr) = match aw!(o, "cli.open_bi.retry", conn.open_bi()) {
+            Ok(x) => x,
+            Err(e) => return o.fail("O1:open_bi", format!("open_bi after rejection: {}", cerr(&e))),
+        };
+        if sid(rbs.id()) != ebid {
+            o.note("retry_bi_stream_has_other_id", 1);
+        }
+        if let Err(e) = aw!(o, "cli.write.retry_bi", rbs.write_all(S4_BI_RETRY)) {
+            return o.fail("O7:retry-write", format!("write on the fresh bidirectional stream: {e:?}"));
+        }
+        if let Err(e) = rbs.finish() {
+            return o.fail("O7:retry-finish", format!("finish on the fresh bidirectional stream: {e:?}"));
+        }
+        drop(ebr);
+        drop(ebs);
+        match aw!(o, "cli.read.retry_bi", rbr.read_to_end(4096)) {
+            Ok(d) if d == S4_RESP => {}
+            Ok(d) => return o.fail("O7:retry-response", format!("response on the fresh bidirectional stream after the stale early handles were dropped: {} of {} bytes", d.len(), S4_RESP.len())),
+            Err(e) => return o.fail("O7:retry-response", format!("reading the response on the fresh bidirectional stream after the stale early handles were dropped: {e:?}")),
         }
     }
     conn.close(VarInt::from_u32(0), b"done");
@@ -1264,6 +1315,21 @@ async fn s4_server_conn(o: Arc<Obs>, inc: Incoming, ep: Endpoint) {
             "O7:0rtt-data",
             format!("server application read {:?}, expected {:?}", String::from_utf8_lossy(&got), String::from_utf8_lossy(&want)),
         );
+    }
+    match aw!(o, "srv.accept_bi", conn.accept_bi()) {
+        Ok((mut ss, mut sr)) => {
+            let want: &[u8] = if o.scen == Scen::S4a { S4_BI_EARLY } else { S4_BI_RETRY };
+            match aw!(o, "srv.read_bi", sr.read_to_end(4096)) {
+                Ok(d) if d == want => {}
+                r => o.fail("O7:0rtt-data", format!("server read {:?} on the bidirectional stream, expected {:?}", r.map(|d| String::from_utf8_lossy(&d).to_string()), String::from_utf8_lossy(want))),
+            }
+            if let Err(e) = aw!(o, "srv.write_bi", ss.write_all(S4_RESP)) {
+                o.fail("O2:write", format!("server response: {e:?}"));
+            }
+            let _ = ss.finish();
+            let _ = aw!(o, "srv.stopped_bi", ss.stopped());
+        }
+        Err(e) => o.fail("O1:accept_bi", format!("accept_bi: {}", cerr(&e))),
     }
     let e = aw!(o, "srv.closed", conn.closed());
     if cerr(&e) != "app(0,\"done\")" {
